@@ -2176,7 +2176,19 @@ def discharge(ob, timeout_ms):
         # the frame conditions are array properties (forall x. x < lo or x >= hi -> mem1[x] = mem0[x]); instantiating
         # them at every index term of the query (and at the region bounds) decides them (Bradley/Manna/Sipma index-set
         # instantiation), so a model that survives is a genuine counter-model
-        idx = _index_terms(list(ob.pc) + [ob.formula])
+        # a universally quantified goal (a loop's own frame invariant) is negated to an existential one: it is
+        # skolemised first, so that its witness is among the index terms
+        neg = z3.Not(ob.formula)
+        try:
+            g = z3.Goal()
+            g.add(neg)
+            sk = [f for sub in z3.Tactic('nnf')(g) for f in sub]
+        except z3.Z3Exception:
+            sk = [neg]
+        s = z3.Solver()
+        s.add(*ob.pc)
+        s.add(*sk)
+        idx = _index_terms(list(ob.pc) + sk)
         for fr in ob.frames:
             for a in list(idx.values()) + [fr.lo - 1, fr.hi]:
                 s.add(z3.Implies(z3.Or(z3.ULT(a, fr.lo), z3.UGE(a, fr.hi)), z3.Select(fr.mem1, a) == z3.Select(fr.mem0, a)))
